@@ -29,7 +29,33 @@ import krun  # noqa: E402
 from rsrc import AnchorError  # noqa: E402
 
 REPO = os.environ.get("VERIF_REPO", "/repo")
-CONFIG = json.load(open(os.path.join(VERIF, "contracts", "config.json")))
+
+
+def load_config():
+    """Merge contracts/units.d/*.json: each fragment declares units and, per property, the units
+    (and obligation filters) it contributes plus level/assumption text."""
+    cfg = {"units": {}, "properties": {}}
+    d = os.path.join(VERIF, "contracts", "units.d")
+    for fn in sorted(os.listdir(d)):
+        if not fn.endswith(".json"):
+            continue
+        frag = json.load(open(os.path.join(d, fn)))
+        for k, v in frag.get("units", {}).items():
+            cfg["units"][k] = v
+        for pid, p in frag.get("properties", {}).items():
+            cur = cfg["properties"].setdefault(pid, {"units": [], "assumptions": [], "not_decided": [],
+                                                      "trusted_base": []})
+            for key in ("units", "assumptions", "not_decided", "trusted_base"):
+                for item in p.get(key, []):
+                    if item not in cur[key]:
+                        cur[key].append(item)
+            for key in ("level", "explanation"):
+                if key in p:
+                    cur[key] = p[key]
+    return cfg
+
+
+CONFIG = load_config()
 
 
 def log(*a):
